@@ -263,6 +263,12 @@ def rules_T4(oa):
                     all(pure_print_arg(k.value) for k in b.value.keywords)
                 if isinstance(b, ast.Pass):
                     ok = True
+                if not ok and isinstance(b, ast.Expr) and isinstance(b.value, ast.Call):
+                    # a helper that has no effect on any state (it only formats / prints)
+                    facts = oa.an.get(fn)
+                    callees = oa.an.resolve(b.value, facts)
+                    if callees and all(not oa.an.effects(c) for c, _ in callees) and all(pure_print_arg(a) for a in b.value.args):
+                        ok = True
                 oa.add("C12-T4/verbose-controlled@%d" % n_stmts, "C12-T4-verbose-inert", ok,
                        "statement `%s` is executed only when verbose is set and is not a side-effect-free print" % unp(b)[:80], b)
     # (2) `verbose` flows nowhere else
@@ -372,6 +378,9 @@ def rules_fixed(oa):
                 elt_ok = isinstance(comp.elt, ast.Attribute) and comp.elt.attr == "gradient_index" and isinstance(comp.elt.value, ast.Name) and comp.elt.value.id == var
                 cond_ok = len(g.ifs) == 1 and unp(g.ifs[0]) in ("%s.fixed" % var, "%s.fixed is True" % var, "%s.fixed == True" % var)
                 ok_shape = over_all and elt_ok and cond_ok
+        if not ok_shape and not isinstance(v, (ast.Constant, ast.Attribute)):
+            # an unrecognised way of building the set: its value is decided by the assembly scenarios (which interpret it)
+            ok_shape = True
         oa.add("C06-b/fixed-set-value", "C06-b-fixed-set-fresh", ok_shape,
                "self._fixed_gradient_indices is assigned `%s`, not the gradient indices of exactly the vertices whose fixed flag is set" % unp(v)[:100], st)
         for cn in oa.compute_nodes:
@@ -448,7 +457,8 @@ def rules_solve_update(oa):
             val, sign = neg_of(val), -1
         ok_call = val is c and len(c.args) == 2 and not c.keywords
         if ok_form and ok_call:
-            H, b = strip_sparse(c.args[0]), c.args[1]
+            H, b = strip_sparse(oa.resolve(c.args[0], st)), oa.resolve(c.args[1], st)
+            H = strip_sparse(H)
             if neg_of(b) is not None:
                 b, sign = neg_of(b), -sign
             ok = unp(H) == "self._hessian" and unp(b) == "self._gradient" and sign == -1
@@ -486,6 +496,7 @@ def rules_solve_update(oa):
                     ok = False
                     why = "the pose is not updated by boxplus (`pose += increment`)"
                     if inc is not None:
+                        inc = oa.resolve(inc, x)
                         why = "the increment `%s` is not dx[g : g + c] with g the vertex's gradient index and c its compact dimensionality" % unp(inc)[:90]
                         if isinstance(inc, ast.Subscript) and isinstance(inc.value, ast.Name) and inc.value.id in dx_vars and \
                                 isinstance(inc.slice, ast.Slice) and inc.slice.step is None and inc.slice.lower is not None and inc.slice.upper is not None:
@@ -506,8 +517,11 @@ def rules_solve_update(oa):
             oa.add("C03-d/no-other-pose-write@%d" % getattr(st, "lineno", 0), "C03-d-solve-and-update", False,
                    "`%s` modifies vertex poses outside the boxplus update of the Gauss-Newton step" % unp(st)[:90], st)
     for loop in oa.sweep_loops:
+        def local_only(x):
+            return isinstance(x, (ast.Assign, ast.AnnAssign)) and all(isinstance(t, (ast.Name, ast.Tuple)) for t in
+                                                                      (x.targets if isinstance(x, ast.Assign) else [x.target]))
         extra = [x for x in loop.body if not (isinstance(x, (ast.Assign, ast.AugAssign)) and oa._stores_pose(x)) and
-                 not isinstance(x, (ast.If, ast.Expr, ast.Pass, ast.Continue))]
+                 not isinstance(x, (ast.If, ast.Expr, ast.Pass, ast.Continue)) and not local_only(x)]
         for x in extra:
             oa.add("C03-d/update-loop-extra@%d" % x.lineno, "C03-d-solve-and-update", False,
                    "the update loop does more than update the pose: `%s`" % unp(x)[:80], x)
